@@ -109,8 +109,10 @@ def gen_jobs(ctx):
         for k in range(rnd.randint(1, 5)):
             t = rnd.choice(["COUNTER", "GAUGE", "HISTOGRAM", "SUMMARY"])
             nl = rnd.randint(0, 3)
+            # a custom collector's samples need not all carry the same number of labels: in half of the families the count varies per sample
+            vary = rnd.random() < 0.5
             lit.append({"name": rnd.choice(["a", "a_b", "a:b", "_x9", "zz"]) + str(k), "help": rnd.choice(strings), "type": t,
-                        "metrics": [lit_metric(rnd, t, strings, fl, nl) for _ in range(rnd.randint(1, 3))]})
+                        "metrics": [lit_metric(rnd, t, strings, fl, rnd.randint(0, 3) if vary else nl) for _ in range(rnd.randint(1, 4))]})
         jobs.append({"src": {"lit": lit}, "tag": "random"})
     # C. families the library itself produces (registry gather, incl. prefix / common labels, histograms with odd observations)
     for i in range(20 if ctx.quick else 300):
@@ -125,6 +127,10 @@ def gen_jobs(ctx):
         calls += [{"op": "int_gauge", "as": "ig", "opts": {"name": "ig", "help": "i"}}, {"op": "set", "obj": "ig", "v": -7}]
         calls += [{"op": "register", "reg": "r", "obj": o} for o in ("cv", "g", "hv", "ig")]
         jobs.append({"setup": calls, "src": {"reg": "r"}, "tag": "library"})
+    # every type: labelled, label-less, labelled samples in one family (and a label-less family after a labelled one)
+    for t in ("COUNTER", "GAUGE", "HISTOGRAM", "SUMMARY"):
+        ms = [lit_metric(rnd, t, ["v", "w"], FLOATS, n) for n in (2, 0, 1, 0)]
+        jobs.append({"src": {"lit": [{"name": "mixed_labels", "help": "h", "type": t, "metrics": ms}, {"name": "plain", "help": "h", "type": t, "metrics": [lit_metric(rnd, t, ["v"], FLOATS, 0)]}]}, "tag": "random"})
     # D. size: strings and families far larger than any internal buffer an encoder might use (8 KiB, 32 KiB, 64 KiB), placed
     #    before, between and after small families
     def big(n, pat):
